@@ -25,6 +25,17 @@ var c03Fixed = []struct{ prog, want string }{
 	{"(defn mk [] (newScope (def g (fn [] later)) (def later 5) (g))) (mk)", "5"},
 	{"(def later 1) (defn mk [] (newScope (def g (fn [] later)) (def later 700) (g))) (list (mk) later)", "(700 1)"},
 	{"(defn mk [] (let [] (def inc (fn [] (set cnt (+ cnt 1)) cnt)) (def get (fn [] cnt)) (def cnt 10) (inc) (inc) (get))) (mk)", "12"},
+	// captured variables read and written through dot paths, after the activation that made them has returned
+	{"(defn mk3 [h] (fn [] (+ h.a 1))) (def c (mk3 (hash a: 1))) (c)", "2"},
+	{"(defn mk3 [] (let [h (hash a: 1)] (fn [] (set h.a (+ h.a 1)) (+ h.a 0)))) (def c (mk3)) (def d (mk3)) (list (c) (c) (d))", "(2 3 2)"},
+	{"(defn mk3 [h] (fn [n] (fn [] (+ h.a n)))) (def c ((mk3 (hash a: 1)) 5)) (def h (hash a: 100)) (c)", "6"},
+	{"(defn callee [] (+ v9.a 1)) (defn caller [] (let [v9 (hash a: 9)] (callee))) (caller)", "ERR"},
+	{"(def v9 (hash a: 1)) (defn callee [] (+ v9.a 1)) (defn caller [] (let [v9 (hash a: 9)] (callee))) (caller)", "2"},
+	// a parameter named like the function shadows it, also in tail position
+	{"(defn walk [walk n] (cond (> n 2) n (walk walk (+ n 1)))) (defn other [w n] (+ 1000 n)) (walk other 0)", "1001"},
+	{"(func walk [walk:fn9 n:int64] [r:int64] (cond (> n 2) n (walk walk (+ n 1)))) (walk (fn [w n] (+ 1000 n)) 0)", "ERR"},
+	{"(defn f [n] (cond (> n 5) n (and (def f (fn [k] 99)) (f (+ n 10))))) (f 0)", "99"},
+	{"(defn f [n] (cond (> n 5) n (begin (def f (fn [k] 99)) false) 1 (f (+ n 10)))) (f 0)", "99"},
 	// a callee never sees its caller's locals
 	{"(defn callee [] v9) (defn caller [] (let [v9 9] (callee))) (caller)", "ERR"},
 	{"(def v9 1) (defn callee [] v9) (defn caller [] (let [v9 9] (callee))) (defn caller2 [v9] (callee)) (list (caller) (caller2 7))", "(1 1)"},
